@@ -223,7 +223,7 @@ var specialKinds = []string{
 	"include-root", "empty-included-file", "empty-included-in-explicit-context", "paste-in-macro-chain", "nul-bytes", "invalid-utf8",
 	"truncated-directive", "cr-only", "unclosed-quote", "deep-include-chain", "only-jsight", "bom", "include-no-parameter",
 	"paren-in-included", "include-dir", "keyword-at-eof", "macro-cycle-via-include",
-	"include-fifo", "nested-include-fifo", "root-fifo",
+	"include-fifo", "nested-include-fifo", "root-fifo", "nul-pairs",
 }
 
 func genSpecial(r *Rand, kind string) *Project {
@@ -287,6 +287,24 @@ func genSpecial(r *Rand, kind string) *Project {
 		file("root.jst", sb.String())
 	case "nul-bytes":
 		file("root.jst", "JSIGHT 0.3\nGET /a\x00b\n  200 any\x00\n")
+	case "nul-pairs":
+		// two zero bytes (or other bytes the scanner refuses) at two of a dozen places: inside the
+		// notes of schema and enum bodies (measured and skipped by the schema library), in texts,
+		// annotations, parameters and comments (walked byte by byte). Each place alone is handled;
+		// the second one is reached in a state the first one prepared
+		tmpl := "JSIGHT 0.3\nTYPE @a\n  {} // note§\nENUM @e\n  [1 // one§\n  ]\n# a comment§\nGET /x§ // annotation§\n  Description\n    te§xt\n  200 any\nGET /y\n  Description\n  (\n    in§side\n  )\n  200\n    {\"k\": 1 // rule note§\n    }\nTAG @t§\n"
+		parts := strings.Split(tmpl, "§")
+		a := r.Intn(len(parts) - 1)
+		b := r.Intn(len(parts) - 1)
+		bad := []string{"\x00", "\x00", "\x00", "\x01", "\x7f"}[r.Intn(5)]
+		var sb strings.Builder
+		for i, pt := range parts {
+			sb.WriteString(pt)
+			if i == a || i == b {
+				sb.WriteString(bad)
+			}
+		}
+		file("root.jst", sb.String())
 	case "invalid-utf8":
 		file("root.jst", "JSIGHT 0.3\nGET /a\xff\xfe // \xc3\x28\n  200\n    {\"k\xed\xa0\x80\": \"\xf8\"}\n")
 	case "truncated-directive":
